@@ -20,6 +20,7 @@ import (
 	"fmt"
 	"math/big"
 	"math/rand"
+	"os"
 	"strings"
 
 	"github.com/markkurossi/mpc/compiler"
@@ -184,7 +185,157 @@ func c12Pair(op string, signed bool, w int, k string, x, y *big.Int) (fv, rv *bi
 	return new(big.Int).And(fo[0], mask), new(big.Int).And(ro[0], mask), "folded", what
 }
 
+// routeEv is one (operator, type, operands) -> (folded, run-time) observation of a routed case
+type routeEv struct {
+	op     string
+	k      string
+	w      int
+	x, y   *big.Int
+	fv, rv *big.Int
+	tag    string
+}
+
+// signExt gives the w2-bit representation of the w-bit value v read in the type's signedness
+func signExt(signed bool, w, w2 int, v *big.Int) *big.Int {
+	if signed && v.Bit(w-1) == 1 {
+		d := new(big.Int).Sub(new(big.Int).Lsh(big.NewInt(1), uint(w2)), new(big.Int).Lsh(big.NewInt(1), uint(w)))
+		return d.Add(d, v)
+	}
+	return new(big.Int).Set(v)
+}
+
+// c12Route: the same fold, but the constants reach the operator on another route than a package-level constant:
+//
+//	local    x := T(c) ... x op y                      (constant local variables)
+//	param    f(T(c), T(d)) with f(x T, y T)            (constant arguments of a function)
+//	unsized  f(x uint, y uint) called with the same constants at two widths (the function body is instantiated twice)
+//	cast     k := T(c); wk := T2(k); k op m            (the constant is also cast to a wider type, before or after its use)
+//
+// The run-time variant is the same program with main's parameters in place of the constants.
+func c12Route(route, op string, signed bool, w int, k string, x, y *big.Int, swap bool) (evs []routeEv, class, detail string) {
+	T := typeName(signed, w)
+	w2 := 2 * w
+	T2 := typeName(signed, w2)
+	rt, rt2 := T, T2
+	if isCmpOp(op) || k == "lt2" {
+		rt, rt2 = "bool", "bool"
+	}
+	ycount := y.Int64()
+	x2, y2 := signExt(signed, w, w2, x), signExt(signed, w, w2, y)
+	var tmpl string
+	second := ""
+	switch route {
+	case "local":
+		tmpl = fmt.Sprintf("package main\n\nfunc main(a %s, b %s) %s {\n\tx := {X}\n\ty := {Y}\n\treturn %s\n}\n", T, T, rt, consume(k, foldExpr(op, "x", "y", ycount), "x"))
+	case "param":
+		tmpl = fmt.Sprintf("package main\n\nfunc f(x %s, y %s) %s {\n\treturn %s\n}\n\nfunc main(a %s, b %s) %s {\n\treturn f({X}, {Y})\n}\n",
+			T, T, rt, consume(k, foldExpr(op, "x", "y", ycount), "x"), T, T, rt)
+	case "unsized":
+		U := "uint"
+		if signed {
+			U = "int"
+		}
+		ru := U
+		if rt == "bool" {
+			ru = "bool"
+		}
+		l1 := fmt.Sprintf("\tvar r1 %s = f({X}, {Y})\n", rt)
+		l2 := fmt.Sprintf("\tvar r2 %s = f({X2}, {Y2})\n", rt2)
+		if swap {
+			l1, l2 = l2, l1
+		}
+		tmpl = fmt.Sprintf("package main\n\nfunc f(x %s, y %s) %s {\n\treturn %s\n}\n\nfunc main(a %s, b %s, c %s, d %s) (%s, %s) {\n%s%s\treturn r1, r2\n}\n",
+			U, U, ru, foldExpr(op, "x", "y", ycount), T, T, T2, T2, rt, rt2, l1, l2)
+		second = op
+	case "cast":
+		use := fmt.Sprintf("\ts := %s\n", consume(k, foldExpr(op, "k", "m", ycount), "k"))
+		casts := fmt.Sprintf("\twk := %s(k)\n\twm := %s(m)\n", T2, T2)
+		if swap {
+			use, casts = casts, use
+		}
+		tmpl = fmt.Sprintf("package main\n\nfunc main(a %s, b %s) (%s, %s) {\n\tk := {X}\n\tm := {Y}\n%s%s\treturn s, wk + wm\n}\n", T, T, rt, T2, casts, use)
+		second = "+"
+	default:
+		return nil, "rejected", ""
+	}
+	fill := func(X, Y, X2, Y2 string) string {
+		return strings.NewReplacer("{X2}", X2, "{Y2}", Y2, "{X}", X, "{Y}", Y).Replace(tmpl)
+	}
+	csrc := fill(T+"("+typedLit(signed, w, x)+")", T+"("+typedLit(signed, w, y)+")", T2+"("+typedLit(signed, w2, x2)+")", T2+"("+typedLit(signed, w2, y2)+")")
+	rsrc := fill("a", "b", "c", "d")
+	what := fmt.Sprintf("%s via %s (swap %v): %s op %s with x=%s y=%s", T, route, swap, op, k, typedLit(signed, w, x), typedLit(signed, w, y))
+	folded, err := ssaFolded(csrc)
+	if err != nil {
+		if strings.Contains(err.Error(), "compiler panic") {
+			if os.Getenv("VERIF_C12_DUMP") != "" {
+				fmt.Fprintf(os.Stderr, "---- crashing source\n%s----\n", csrc)
+			}
+			return nil, "crash", fmt.Sprintf("the compiler crashes while folding %s: %v", what, err)
+		}
+		return nil, "rejected", ""
+	}
+	if !folded {
+		return nil, "not-folded", ""
+	}
+	var cc, rc interface {
+		Compute([]*big.Int) ([]*big.Int, error)
+	}
+	func() {
+		defer func() {
+			if p := recover(); p != nil {
+				err = fmt.Errorf("compiler panic: %v", p)
+			}
+		}()
+		c1, e1 := compileMPCL(csrc, nil)
+		if e1 != nil {
+			err = e1
+			return
+		}
+		c2, e2 := compileMPCL(rsrc, nil)
+		if e2 != nil {
+			err = e2
+			return
+		}
+		cc, rc = c1, c2
+	}()
+	if err != nil {
+		if strings.Contains(err.Error(), "compiler panic") {
+			return nil, "crash", fmt.Sprintf("the compiler crashes on %s: %v", what, err)
+		}
+		return nil, "rejected", ""
+	}
+	zeros := []*big.Int{big.NewInt(0), big.NewInt(0)}
+	ins := []*big.Int{x, y}
+	if route == "unsized" {
+		zeros = append(zeros, big.NewInt(0), big.NewInt(0))
+		ins = append(ins, x2, y2)
+	}
+	fo, err := cc.Compute(zeros)
+	if err != nil {
+		return nil, "rejected", ""
+	}
+	ro, err := rc.Compute(ins)
+	if err != nil {
+		return nil, "rejected", ""
+	}
+	mk := func(wd int, isBool bool) *big.Int {
+		if isBool {
+			return big.NewInt(1)
+		}
+		return new(big.Int).Sub(new(big.Int).Lsh(big.NewInt(1), uint(wd)), big.NewInt(1))
+	}
+	m1 := mk(w, rt == "bool")
+	evs = append(evs, routeEv{op: op, k: k, w: w, x: x, y: y, fv: new(big.Int).And(fo[0], m1), rv: new(big.Int).And(ro[0], m1), tag: what})
+	if second != "" && len(fo) > 1 && len(ro) > 1 {
+		m2 := mk(w2, route == "unsized" && rt == "bool")
+		evs = append(evs, routeEv{op: second, k: "ret", w: w2, x: x2, y: y2, fv: new(big.Int).And(fo[1], m2), rv: new(big.Int).And(ro[1], m2), tag: what + " (second result, " + T2 + ")"})
+	}
+	return evs, "folded", what
+}
+
 type catCase struct {
+	Route  string `json:"route"`
+	Swap   int    `json:"swap"`
 	I      int    `json:"i"`
 	Op     string `json:"op"`
 	K      string `json:"k"`
@@ -306,6 +457,39 @@ func c12Main(args []string) error {
 			}
 			key := fmt.Sprintf("%s:%s@%s:%s:%s", c.Op, c.K, T, c.Xn, c.Yn)
 			res := &Result{Case: c.I, Nontrivial: true}
+			if c.Route != "" && c.Route != "pkg" {
+				sw := []string{"", "'"}[c.Swap]
+				evs, class, detail := c12Route(c.Route, c.Op, c.Signed == 1, w, c.K, x, y, c.Swap == 1)
+				res.Class = class + "/" + c.Route
+				if class == "crash" {
+					res.viol("fold-crash:"+fmt.Sprintf("%s:%s/%s%s@%s:%s:%s", c.Op, c.K, c.Route, sw, T, c.Xn, c.Yn), "%s", detail)
+				}
+				for j, e := range evs {
+					lw := e.w
+					if isCmpOp(e.op) || e.k == "lt2" {
+						lw = 1
+					}
+					ekey := fmt.Sprintf("%s:%s/%s%s@%s:%s:%s", c.Op, c.K, c.Route, sw, T, c.Xn, c.Yn)
+					if j == 1 {
+						ekey = fmt.Sprintf("%s:%s/%s%s.2@%s:%s:%s", c.Op, c.K, c.Route, sw, T, c.Xn, c.Yn)
+					}
+					ev := map[string]interface{}{"i": c.I + j, "key": ekey, "what": e.tag, "op": e.op, "k": e.k, "w": e.w, "signed": c.Signed, "bool": 0,
+						"x": limbs(e.x, e.w), "y": limbs(e.y, e.w), "folded": limbs(e.fv, lw), "runtime": limbs(e.rv, lw), "fv": e.fv.String(), "rv": e.rv.String()}
+					if e.fv.Cmp(e.rv) != 0 {
+						// what the package-constant route folds for the very same typed operands
+						yy := e.y
+						if e.op == "<<" || e.op == ">>" {
+							yy = big.NewInt(int64(c.Cnt))
+						}
+						if pf, _, pclass, _ := c12Pair(e.op, c.Signed == 1, e.w, e.k, e.x, yy); pclass == "folded" {
+							ev["pkgfv"] = pf.String()
+						}
+					}
+					tr.put(ev)
+				}
+				out.put(res)
+				return nil
+			}
 			fv, rv, class, detail := c12Pair(c.Op, c.Signed == 1, w, c.K, x, y)
 			res.Class = class
 			if class == "crash" {
